@@ -1,6 +1,7 @@
 import Driver.OpsBind
 import XsdataModel.Fault.Doc
 import XsdataModel.Fault.Dict
+import XsdataModel.Fault.Supported
 open Lean Proto Py Xs.Bind Xs.Fault
 
 namespace OpsFault
@@ -10,6 +11,8 @@ def dTok (j : Json) : Except String Tok :=
   match j with
   | .str "syntax" => .ok .syntaxError
   | .str "include" => .ok .includeError
+  | .str "stopped" => .ok .stopped
+  | .str "text_decode" => .ok .textDecodeError
   | _ =>
     match j.getObjVal? "tree", j.getObjVal? "raised" with
     | .ok t, _ => (dTree t).map .tree
@@ -69,6 +72,19 @@ def run (op : String) (a : Json) : Option (Except String Json) :=
       pure <| match parseDocument benv Γ (dCfg (field a "config")) c tok with
         | .ok (v, w) => ok (jObj [("value", jVal v), ("warnings", jNat w)])
         | .error e => jErr e
+  | "fault.supported" => some do
+      -- is the input inside the supported region of the models (`Fault/Supported.lean`)?
+      let Γ ← dCtx (field a "ctx")
+      match field a "tree" with
+      | .null =>
+        let l ← dLoaded (field a "loaded")
+        let fuel := (field a "fuel").getNat?.toOption.getD 64
+        pure <| ok (Json.bool (match l with
+          | .value j => dictSupported Γ fuel j
+          | _ => true))
+      | tj =>
+        let t ← dTree tj
+        pure <| ok (Json.bool (xmlSupported benv Γ t))
   | "dict.decode" => some do
       let Γ ← dCtx (field a "ctx")
       let l ← dLoaded (field a "loaded")
